@@ -20,21 +20,34 @@ def parse_spec(text: str) -> ast.expr:
 
 class ContractMixin:
     # ------------------------------------------------------------------ spec evaluation
-    def spec_eval(self, text: str, env: dict, st: State, old: State | None = None) -> V:
+    def spec_eval(self, text: str, env: dict, st: State, old: State | None = None, pol: int = 0) -> V:
+        """pol=+1: the clause is being proved (top-level foralls are replaced by fresh constants);
+        pol=-1: the clause is being assumed (top-level exists are replaced by fresh constants); 0: neither."""
         s = st.fork()
         s.spec = True
         s.env = dict(env)
         s.ghost = dict(st.ghost)
         s.ghost["__old__"] = old
-        s.pc = st.pc  # share: spec evaluation adds no facts of its own
+        s.ghost["__pol__"] = pol
+        s.pc = st.pc  # share: spec evaluation adds only valid invariant instances
+        s.ghost["__facts__"] = []
         try:
-            return self.ev1(parse_spec(text), s)
+            v = self.ev1(parse_spec(text), s)
         except Unsupported as ex:
             raise Unsupported(f"in spec clause `{text}`: {ex}")
+        for f, _trig in s.ghost.get("__facts__", []):
+            st.assume(f)
+        return v
 
-    def spec_bool(self, text, env, st, old=None):
-        v = self.spec_eval(text, env, st, old)
+    def spec_bool(self, text, env, st, old=None, pol=0):
+        v = self.spec_eval(text, env, st, old, pol)
         return self.truth(v, st)
+
+    def spec_goal(self, text, env, st, old=None):
+        return self.spec_bool(text, env, st, old, +1)
+
+    def spec_assume(self, text, env, st, old=None):
+        return self.spec_bool(text, env, st, old, -1)
 
     # ------------------------------------------------------------------ parameter binding
     def bind_params(self, names: list[str], defaults: dict, args, kw, node, qual="?") -> dict:
@@ -120,7 +133,7 @@ class ContractMixin:
         pre = st.fork()
         # preconditions
         for lab, txt in c.requires.items():
-            g = self.spec_bool(txt, env, st)
+            g = self.spec_goal(txt, env, st)
             self.oblige(st, "pre", f"{c.qualname}.{lab}", g, node, note=txt)
         # effects: frame + havoc
         for entry in c.modifies:
@@ -162,14 +175,17 @@ class ContractMixin:
             nf = self.no_frame
             self.no_frame = True
             wk = parse_kind(inst(wkind), self.reg.opaque)
-            wl = self.new_list(st, wk.target.elem, fresh("wlen", I), fresh("warr", z3.ArraySort(I, wk.target.elem.sort())))
+            if is_list(wk):
+                wl = self.new_list(st, wk.target.elem, fresh("wlen", I), fresh("warr", z3.ArraySort(I, wk.target.elem.sort())))
+            else:
+                wl = self.fresh_value("wit_" + wname, wk, st)
             self.no_frame = nf
             env2[wname] = wl
         for lab, txt in c.ensures.items():
             sg = dict(st.ghost)
             st.ghost["__top0__"] = pre.top
             try:
-                st.assume(self.spec_bool(txt, env2, st, pre))
+                st.assume(self.spec_assume(txt, env2, st, pre))
             finally:
                 st.ghost = sg
         # oracle log
@@ -221,6 +237,7 @@ class ContractMixin:
             if is_list(v.kind):
                 return "list", v.term
             if is_dict(v.kind):
+                self._mod_values[v.term.get_id()] = v
                 return "dict", v.term
             raise Unsupported(f"modifies entry {entry}: not a container")
         if entry.endswith(".*"):
